@@ -414,6 +414,17 @@ func (x *Exec) ifStmt(s *ast.IfStmt, st *State) outcome {
 	}
 	c := x.expr(s.Cond, st)
 	var out outcome
+	// constant conditions (e.g. `if debug` with const debug = false): the dead
+	// branch is not translated
+	if isLit(c.T, "false") {
+		if s.Else != nil {
+			return x.stmt(s.Else, st, "")
+		}
+		return outcome{normal: st}
+	}
+	if isLit(c.T, "true") {
+		return x.block(s.Body.List, st)
+	}
 	thenSt := st.clone()
 	thenSt.assume(c.T)
 	elseSt := st
@@ -515,6 +526,28 @@ func (x *Exec) assignedIn(nodes ...ast.Node) map[types.Object]bool {
 		}
 		ast.Inspect(n, func(n ast.Node) bool {
 			mark := func(e ast.Expr) {
+				// res.f = v on a struct-valued local: only field f changes
+				if sel, ok := e.(*ast.SelectorExpr); ok {
+					if id, ok := sel.X.(*ast.Ident); ok {
+						if o, ok := info.ObjectOf(id).(*types.Var); ok {
+							if s := info.Selections[sel]; s != nil && s.Kind() == types.FieldVal && len(s.Index()) == 1 {
+								if _, isStruct := o.Type().Underlying().(*types.Struct); isStruct {
+									if x.fieldAsg == nil {
+										x.fieldAsg = map[types.Object]map[int]bool{}
+									}
+									if x.fieldAsg[o] == nil {
+										x.fieldAsg[o] = map[int]bool{}
+									}
+									x.fieldAsg[o][s.Index()[0]] = true
+									if !out[o] {
+										out[o] = false // present, but only field-wise
+									}
+									return
+								}
+							}
+						}
+					}
+				}
 				for {
 					switch t := e.(type) {
 					case *ast.ParenExpr:
